@@ -22,11 +22,11 @@ package dagaz
 //@   property C20
 //@   requires s != nil && p != nil && s.moduleStates != nil
 //@   requires "dagaz" in s.moduleStates ==> dyntype(s.moduleStates["dagaz"], *State) && s.moduleStates["dagaz"].(*State) != nil && s.moduleStates["dagaz"].(*State).SpatialPartition != nil
-//@   modifies m.currentSession, m.currentParticipant, m.state, contents(s.moduleStates)
+//@   modifies {C03} m.currentSession, m.currentParticipant, m.state, contents(s.moduleStates)
 //@   allocates
 //@   ensures m.currentSession == s && m.currentParticipant == p && m.state != nil && m.state.SpatialPartition != nil
-//@   ensures {C20} "dagaz" in s.moduleStates && s.moduleStates["dagaz"].(*State) == m.state
-//@   ensures {C20} old("dagaz" in s.moduleStates) ==> m.state == old(s.moduleStates["dagaz"].(*State)) && m.state.SpatialPartition == old(s.moduleStates["dagaz"].(*State).SpatialPartition)
+//@   ensures {C20,C03} "dagaz" in s.moduleStates && s.moduleStates["dagaz"].(*State) == m.state
+//@   ensures {C20,C03} old("dagaz" in s.moduleStates) ==> m.state == old(s.moduleStates["dagaz"].(*State)) && m.state.SpatialPartition == old(s.moduleStates["dagaz"].(*State).SpatialPartition)
 
 // ---------------------------------------------------------------------------------------------
 // The spatial partition as seen by the module handlers (the grid itself — floating-point geometry —
